@@ -299,7 +299,7 @@ class Snap(PickleStorage):
             p = filename.with_suffix(suf)
             if p.exists():
                 shutil.copy(p, dst / ("snap" + suf))
-        (dst / "calls.json").write_text(json.dumps([t for t, a in nodes.CALLS]))
+        (dst / "calls.json").write_text(json.dumps([[t, all(x >= 0 for x in a)] for t, a in nodes.CALLS]))
 
 
 def _slot(v):
@@ -493,8 +493,8 @@ def model_view(case, o):
     if not o["cut"]:
         return ["nocut", o["verdict"]]
     if o["image"] is None:
-        return ["cut", [mpath(tree, lp[t]) for t in o["before"]], "unloadable"]
-    return ["cut", [mpath(tree, lp[t]) for t in o["before"]], o["image"], rounds(o["rounds"]), twin]
+        return ["cut", [mpath(tree, lp[t]) for t, ok in o["before"]], "unloadable"]
+    return ["cut", [mpath(tree, lp[t]) for t, ok in o["before"]], o["image"], rounds(o["rounds"]), twin]
 
 
 # ---- the property, on the implementation's observation ---------------------------------------------------
@@ -540,10 +540,10 @@ def _check_rounds(case, o, done0, first_sig):
         if r["verdict"] == "ok":
             if raised:
                 return "swallowed: a function raised but the run returned normally"
+            if r["files"]:
+                return f"stray-files: a run that returned normally left {r['files']}"
             if ri != len(rs) - 1:
                 return "harness: rounds after a normal return"
-            if r["files"]:
-                return f"stray-files: a successful run left {r['files']}"
             break
         # a run that ended in an exception
         if not raised:
@@ -602,14 +602,13 @@ def oracle(case, o):
         return f"checkpoint-unloadable: loading the checkpoint file raised {o['load_error']}"
     lp = leaf_paths(tree)
     fl = _flat(tree, o["image"])
-    done = {t for t in range(len(lp)) if fl[tuple(mpath(tree, lp[t]))][1] != "none"}
-    okb = set(o["before"])
-    if not done <= okb:
-        return "image-content: the checkpoint image has cache keys for nodes that had not been called"
+    done = {t for t, ok in o["before"] if ok}        # functions that had returned when the checkpoint was written
     for t in range(len(lp)):
         x = fl[tuple(mpath(tree, lp[t]))]
-        if (t in done) != (x[0] != "nd"):
-            return f"image-content: node {t} has an output without a cache key (or the reverse) in the checkpoint image"
+        if t in done and (x[0] == "nd" or x[1] == "none"):
+            return f"image-content: node {t} had completed before the checkpoint but the image lacks its output or cache key"
+        if t not in done and (x[0] != "nd" or x[1] != "none"):
+            return f"image-content: node {t} had not completed but the checkpoint image has an output or cache key for it"
     return _check_rounds(case, o, done, "checkpoint-not-resumable")
 
 
@@ -645,11 +644,11 @@ def known(case, o, verdict):
 # ---- generation -----------------------------------------------------------------------------------------
 def gen_comp(rng, depth, budget, nparams):
     """children of one composite; returns (kids, nodes used)"""
-    nk = rng.randint(max(1, nparams and 1), max(1, min(budget, rng.choice([2, 3, 3, 4, 5]))))
+    nk = rng.randint(1 if depth else 2, max(2 if not depth else 1, min(budget, rng.choice([2, 3, 3, 4, 5]))))
     kids, used = [], 0
     for i in range(nk):
         left = budget - used - (nk - i - 1)
-        if depth < 2 and left >= 3 and rng.random() < 0.3:
+        if depth < 2 and left >= 3 and rng.random() < (0.4 if depth == 0 else 0.5):
             np_ = rng.choice([0, 1, 1, 2, 2, 3])
             sub, u = gen_comp(rng, depth + 1, min(left - 1, rng.choice([2, 3, 4])), np_)
             ins = [(["u", rng.randrange(i)] if i and rng.random() < 0.7 else ["c", rng.randint(0, 30)]) for _ in range(np_)]
@@ -681,7 +680,7 @@ def gen_comp(rng, depth, budget, nparams):
 
 
 def gen_tree(rng):
-    kids, _ = gen_comp(rng, 0, rng.choice([2, 3, 4, 5, 6, 7, 8]), 0)
+    kids, _ = gen_comp(rng, 0, rng.choice([2, 3, 4, 5, 6, 6, 7, 7, 8, 8]), 0)
     return ["M", 0, [], kids]
 
 
@@ -717,7 +716,7 @@ def cases_of(rng, tree, rich):
 def generate(ctx):
     rng = ctx.rng
     cases, seen = [], set()
-    for _ in range(ctx.n(80, 600)):
+    for _ in range(ctx.n(60, 500)):
         tree = gen_tree(rng)
         for c in cases_of(rng, tree, not ctx.quick):
             k = json.dumps(c, sort_keys=True)
